@@ -9,7 +9,7 @@ use self::asm::AsmSource;
 use self::command::{Command, CommandReader, Label, Location, MemoryLocation};
 use crate::air::AsmLine;
 use crate::output::{Condition, Output};
-use crate::runtime::{RunState, HALT_ADDRESS, USER_MEMORY_END};
+use crate::runtime::{RunState, USER_MEMORY_END};
 use crate::symbol::with_symbol_table;
 use crate::{dprintln, features};
 
@@ -180,7 +180,9 @@ impl Debugger {
                 );
                 self.status = Status::WaitForAction;
             }
-            Ordering::Greater if state.pc() != HALT_ADDRESS => {
+            // Includes `HALT_ADDRESS`: `HALT` is never executed while the debugger is active, so PC
+            // can only have got there with a jump
+            Ordering::Greater => {
                 dprintln!(
                     Alternate,
                     Error,
@@ -365,7 +367,7 @@ impl Debugger {
             Command::StepOver => {
                 Self::check_halt(instr)?;
                 self.status = Status::StepOver {
-                    return_addr: state.pc() + 1,
+                    return_addr: state.pc().wrapping_add(1),
                 };
                 self.should_echo_pc = true;
             }
